@@ -11,5 +11,5 @@ for c,o in zip(cases,outs):
     if impl!=f[0]:
         n+=1
         if n<=lim:
-            print("CASE ",case); print(" impl ",impl); print(" model",f[0]); print()
+            print("CASE ",case[:1500]); print(" impl ",impl[:1500]); print(" model",f[0][:1500]); print()
 print("disagreements:",n,"of",len(cases)-1)
